@@ -127,6 +127,9 @@ def supplied(net, comp):
 # ----------------------------------------------------------------------------------------------
 # companion net for merge_nets (disjoint from every case net by construction: own objects)
 # ----------------------------------------------------------------------------------------------
+_COMP = {}      # solved companion per option set (constant input, never modified: deep-copied on use)
+
+
 def companion():
     net = na.base("T3")
     pp.create_load(net, 3, 0.7, 0.2)
@@ -216,10 +219,14 @@ def apply_tool(net, t, opts):
         extra["raw_map"] = _map_from_tags(net, n2)
         M = _prune_dead(_map_from_tags(net, n2), net)
     elif k == "merge":
-        comp = companion()
-        oc = na.run_pf(comp, opts)
-        if oc != "ok":
-            raise HarnessError("companion net does not solve: " + oc)
+        key = repr(sorted(opts.items()))
+        if key not in _COMP:
+            comp = companion()
+            oc = na.run_pf(comp, opts)
+            if oc != "ok":
+                raise HarnessError("companion net does not solve: " + oc)
+            _COMP[key] = comp
+        comp = copy.deepcopy(_COMP[key])
         ca, cb = copy.deepcopy(net), copy.deepcopy(comp)
         _tag(ca)
         _tag(cb)
